@@ -32,6 +32,11 @@ pub trait Property {
     /// (exhaustive tables, long variants). Default: nothing.
     fn extra(_tier: Tier, _seed: u64, _shard: u32, _of: u32, _ctx_known: &[KnownFinding], _out: &mut ShardOut) {}
 
+    /// Whether the simulated kernel is installed under a10 for this property
+    /// (false: a10 talks to the real io_uring of the machine).
+    fn uses_sim() -> bool {
+        true
+    }
     fn level() -> &'static str {
         "exploration"
     }
@@ -172,7 +177,7 @@ fn regression_files(id: &str) -> Vec<PathBuf> {
 
 /// Worker: executes shard `shard` of `of`.
 pub fn worker<P: Property>(tier: Tier, seed: u64, shard: u32, of: u32, out_path: &Path) -> i32 {
-    crate::init_process();
+    crate::init_process(P::uses_sim());
     let known = load_known(P::ID);
     let stats = RefCell::new(Stats::new());
     let journal = out_path.with_extension("journal");
@@ -309,7 +314,7 @@ pub fn worker<P: Property>(tier: Tier, seed: u64, shard: u32, of: u32, out_path:
 
 /// Replay one saved case in strict mode. Exit code 0 held, 1 violation.
 pub fn replay<P: Property>(path: &Path) -> i32 {
-    crate::init_process();
+    crate::init_process(P::uses_sim());
     match read_replay::<P>(path) {
         Ok((case, _)) => {
             let lenient = std::env::var_os("A10VERIF_LENIENT").is_some();
